@@ -1,6 +1,124 @@
-(* Properties_C01.v -- property theorems only (placeholder until the proofs land). *)
-From SC Require Import Base Cfg Comb ModStr ModMem.
+(* Properties_C01.v -- C01: no write outside the declared destination.
+   Only theorem statements, closed by [exact]; Print Assumptions under each. *)
+From Coq Require Import List ZArith Lia Bool.
+From SC Require Import Base Cfg Comb CombProofs ModStr ModMem ProofsStr ProofsMem PropDefs.
 From SC.Gen Require Import Consts.
+Import ListNotations.
+Local Open Scope Z_scope.
+
+Definition bos_ok (bytes destbos : Z) : Prop := destbos = BOS_UNKNOWN \/ bytes <= destbos.
+
+Theorem C01_strcpy_s : forall c d dmax s destbos, 0 <= dmax -> bos_ok dmax destbos ->
+  C01_holds (ext d dmax) (strcpy_s c d dmax s destbos).
+Proof. intros. apply C01_from_writes. exact (strcpy_s_writes c d dmax s destbos H H0). Qed.
+Print Assumptions C01_strcpy_s.
+
+Theorem C01_strcat_s : forall c d dmax s destbos, 0 <= dmax -> bos_ok dmax destbos ->
+  C01_holds (ext d dmax) (strcat_s c d dmax s destbos).
+Proof. intros. apply C01_from_writes. exact (strcat_s_writes c d dmax s destbos H H0). Qed.
+Print Assumptions C01_strcat_s.
+
+Theorem C01_strncpy_s : forall c d dmax s slen destbos srcbos, 0 <= dmax -> bos_ok dmax destbos -> bos_ok slen srcbos ->
+  C01_holds (ext d dmax) (strncpy_s c d dmax s slen destbos srcbos).
+Proof. intros. apply C01_from_writes. exact (strncpy_s_writes c d dmax s slen destbos srcbos H H0 H1). Qed.
+Print Assumptions C01_strncpy_s.
+
+Theorem C01_strncat_s : forall c d dmax s slen destbos srcbos, 0 <= dmax -> bos_ok dmax destbos -> bos_ok slen srcbos ->
+  C01_holds (ext d dmax) (strncat_s c d dmax s slen destbos srcbos).
+Proof. intros. apply C01_from_writes. exact (strncat_s_writes c d dmax s slen destbos srcbos H H0 H1). Qed.
+Print Assumptions C01_strncat_s.
+
+Theorem C01_wcscpy_s : forall c d dmax s destbos, wf_cfg c -> 0 <= dmax -> bos_ok (dmax * wchar_w c) destbos ->
+  C01_holds (ext d (dmax * wchar_w c)) (wcscpy_s c d dmax s destbos).
+Proof. intros. apply C01_from_writes. exact (wcscpy_s_writes c d dmax s destbos H H0 H1). Qed.
+Print Assumptions C01_wcscpy_s.
+
+Theorem C01_strnlen_s : forall c str smax bos, C01_holds nowhere (strnlen_s c str smax bos).
+Proof. intros. apply C01_from_writes. exact (strnlen_s_writes c str smax bos). Qed.
+Print Assumptions C01_strnlen_s.
+
+(* memory family. memcpy_s / memmove_s never replace dmax *)
+Theorem C01_memcpy_s : forall c d dmax s slen destbos srcbos, 0 <= dmax -> 0 <= slen -> bos_ok dmax destbos ->
+  C01_holds (ext d dmax) (memcpy_s c d dmax s slen destbos srcbos).
+Proof. intros. apply C01_from_writes.
+  exact (mem_copy_gen_writes c 1 (rmax_mem c) false true EOVERFLOW false d dmax s slen destbos srcbos Z.lt_0_1 H H0 H1). Qed.
+Print Assumptions C01_memcpy_s.
+Theorem C01_memmove_s : forall c d dmax s slen destbos srcbos, 0 <= dmax -> 0 <= slen -> bos_ok dmax destbos ->
+  C01_holds (ext d dmax) (memmove_s c d dmax s slen destbos srcbos).
+Proof. intros. apply C01_from_writes.
+  exact (mem_copy_gen_writes c 1 (rmax_mem c) false false EOVERFLOW false d dmax s slen destbos srcbos Z.lt_0_1 H H0 H1). Qed.
+Print Assumptions C01_memmove_s.
+
+(* functions that bound the operation by a known object size ("dmax = destbos"):
+   full statement about the extent really used, the property for destbos unknown or equal to dmax,
+   and the refutation for destbos > dmax (known finding bos-replaces-dmax) *)
+Theorem C01_memcpy16_s_extent : forall c d dmax s slen destbos srcbos, 0 <= dmax -> 0 <= slen -> bos_ok dmax destbos ->
+  C01_holds (ext d (eff_dmax true dmax destbos)) (memcpy16_s c d dmax s slen destbos srcbos).
+Proof. intros. apply C01_from_writes.
+  exact (mem_copy_gen_writes c 2 (rmax_mem c) true true ESLEMAX false d dmax s slen destbos srcbos ltac:(lia) H H0 H1). Qed.
+Print Assumptions C01_memcpy16_s_extent.
+Theorem C01_memmove16_s_extent : forall c d dmax s slen destbos srcbos, 0 <= dmax -> 0 <= slen -> bos_ok dmax destbos ->
+  C01_holds (ext d (eff_dmax true dmax destbos)) (memmove16_s c d dmax s slen destbos srcbos).
+Proof. intros. apply C01_from_writes.
+  exact (mem_copy_gen_writes c 2 (rmax_mem c) true false EOVERFLOW false d dmax s slen destbos srcbos ltac:(lia) H H0 H1). Qed.
+Print Assumptions C01_memmove16_s_extent.
+Theorem C01_memcpy32_s_extent : forall c d dmax s slen destbos srcbos, 0 <= dmax -> 0 <= slen -> bos_ok dmax destbos ->
+  C01_holds (ext d (eff_dmax true dmax destbos)) (memcpy32_s c d dmax s slen destbos srcbos).
+Proof. intros. apply C01_from_writes.
+  exact (mem_copy_gen_writes c 4 (rmax_mem c) true true ESLEMAX false d dmax s slen destbos srcbos ltac:(lia) H H0 H1). Qed.
+Print Assumptions C01_memcpy32_s_extent.
+Theorem C01_memmove32_s_extent : forall c d dmax s slen destbos srcbos, 0 <= dmax -> 0 <= slen -> bos_ok dmax destbos ->
+  C01_holds (ext d (eff_dmax true dmax destbos)) (memmove32_s c d dmax s slen destbos srcbos).
+Proof. intros. apply C01_from_writes.
+  exact (mem_copy_gen_writes c 4 (rmax_mem c) true false EOVERFLOW false d dmax s slen destbos srcbos ltac:(lia) H H0 H1). Qed.
+Print Assumptions C01_memmove32_s_extent.
+Theorem C01_memset_s_extent : forall c d dmax v n destbos, 0 <= dmax -> 0 <= n -> bos_ok dmax destbos ->
+  C01_holds (ext d (eff_dmax true dmax destbos)) (memset_s c d dmax v n destbos).
+Proof. intros. apply C01_from_writes. exact (memset_s_writes c d dmax v n destbos H H0 H1). Qed.
+Print Assumptions C01_memset_s_extent.
+Theorem C01_memset16_s_extent : forall c d dmax v n destbos, 0 <= dmax -> 0 <= n -> bos_ok dmax destbos ->
+  C01_holds (ext d (eff_dmax true dmax destbos)) (memset16_s c d dmax v n destbos).
+Proof. intros. apply C01_from_writes. exact (memsetw_s_writes c 2 (rmax_mem16 c) d dmax v n destbos ltac:(lia) H H0 H1). Qed.
+Print Assumptions C01_memset16_s_extent.
+Theorem C01_memset32_s_extent : forall c d dmax v n destbos, 0 <= dmax -> 0 <= n -> bos_ok dmax destbos ->
+  C01_holds (ext d (eff_dmax true dmax destbos)) (memset32_s c d dmax v n destbos).
+Proof. intros. apply C01_from_writes. exact (memsetw_s_writes c 4 (rmax_mem32 c) d dmax v n destbos ltac:(lia) H H0 H1). Qed.
+Print Assumptions C01_memset32_s_extent.
+
+(* outside the known-finding region (object size unknown, or equal to dmax) the extent is dest[0..dmax) *)
+Theorem C01_bos_replaces_dmax_except : forall dmax destbos,
+  (destbos = BOS_UNKNOWN \/ destbos = dmax) -> eff_dmax true dmax destbos = dmax.
+Proof. intros dmax destbos [->| ->]; unfold eff_dmax; cbn; [reflexivity|]. destruct (dmax =? BOS_UNKNOWN); reflexivity. Qed.
+Print Assumptions C01_bos_replaces_dmax_except.
+(* inside it the declared extent is exceeded: memset_s(d, 4, 'A', 8, destbos = 8) writes d+4..d+7 *)
+Theorem C01_memset_s_refuted : exists c d dmax v n destbos, 0 <= dmax /\ bos_ok dmax destbos /\
+  ~ C01_holds (ext d dmax) (memset_s c d dmax v n destbos).
+Proof.
+  exists cfg_default, 1000, 4, 65, 8, 8. split; [lia|]. split; [right; lia|].
+  intros H. destruct (H nofail (fun _ => 0)) as [F _]. specialize (F 1005).
+  assert (~ ext 1000 4 1005) as N by (unfold ext; lia). specialize (F N). vm_compute in F. discriminate.
+Qed.
+Print Assumptions C01_memset_s_refuted.
+
+Theorem C01_memzero_s : forall c d len destbos, 0 <= len -> bos_ok (len * 1) destbos ->
+  C01_holds (ext d (len * 1)) (memzero_s c d len destbos).
+Proof. intros. apply C01_from_writes. exact (memzerow_s_writes c 1 d len destbos Z.lt_0_1 H H0). Qed.
+Print Assumptions C01_memzero_s.
+Theorem C01_memzero16_s : forall c d len destbos, 0 <= len -> bos_ok (len * 2) destbos ->
+  C01_holds (ext d (len * 2)) (memzero16_s c d len destbos).
+Proof. intros. apply C01_from_writes. exact (memzerow_s_writes c 2 d len destbos ltac:(lia) H H0). Qed.
+Print Assumptions C01_memzero16_s.
+Theorem C01_memzero32_s : forall c d len destbos, 0 <= len -> bos_ok (len * 4) destbos ->
+  C01_holds (ext d (len * 4)) (memzero32_s c d len destbos).
+Proof. intros. apply C01_from_writes. exact (memzerow_s_writes c 4 d len destbos ltac:(lia) H H0). Qed.
+Print Assumptions C01_memzero32_s.
+
+(* the configuration of the working tree satisfies the side conditions (regenerated every run) *)
 Theorem C01_cfg_repo_wf : wf_cfg cfg_repo.
 Proof. exact wf_cfg_repo. Qed.
 Print Assumptions C01_cfg_repo_wf.
+
+(* non-vacuity: a concrete non-trivial call meets the hypotheses and runs *)
+Example C01_example : let m := fun a => if a =? 2003 then 0 else 97 in
+  fst (fst (exec (strcpy_s cfg_default 1000 8 2000 BOS_UNKNOWN) m)) = EOK.
+Proof. vm_compute. reflexivity. Qed.
